@@ -115,7 +115,7 @@ pub struct StepOut {
 }
 
 impl MuxRun {
-    pub fn new(timeout: u64, max_active: usize, stalled: bool) -> Self {
+    pub fn new(timeout: u64, max_active: usize, stalled: bool, signer: bool) -> Self {
         vtime::reset();
         let addr: SocketAddr = "192.0.2.53:53".parse().unwrap();
         let shared = Arc::new(Mutex::new(Shared::default()));
@@ -124,6 +124,7 @@ impl MuxRun {
         let mux = DnsMultiplexer::new(stream, handle)
             .with_timeout(Duration::from_millis(timeout))
             .with_max_active_requests(max_active);
+        let mux = if signer { mux.with_signer(super::udp::test_signer()) } else { mux };
         Self {
             mux,
             rx,
@@ -171,13 +172,18 @@ impl MuxRun {
     pub fn step(&mut self, t: &[&str]) -> Option<StepOut> {
         let mut fails = vec![];
         let out = match t {
-            ["send", k] => {
+            ["send", k] | ["send", k, "e"] | ["send", k, "x"] | ["send", k, "e", "x"] => {
+                let unencodable = t.contains(&"e");
+                let axfr = t.contains(&"x");
                 let k: usize = k.parse().ok()?;
                 if self.caller(k).is_some() {
                     "bad".to_string()
                 } else {
                     let mut msg = Message::new(0, MessageType::Query, OpCode::Query);
-                    msg.queries.push(Query::new(Name::from_ascii(format!("r{k}.test.")).ok()?, RecordType::A));
+                    msg.queries.push(Query::new(Name::from_ascii(format!("r{k}.test.")).ok()?, if axfr { RecordType::AXFR } else { RecordType::A }));
+                    if unencodable {
+                        msg.additionals.push(super::udp::unencodable_record());
+                    }
                     let req = DnsRequest::new(msg, DnsRequestOptions::default());
                     let mux = &mut self.mux;
                     match catch(|| mux.send_message(req)) {
@@ -434,7 +440,7 @@ fn recv_once(c: &mut CallerSt, tag_ids: &HashMap<u32, u16>) -> (String, Vec<Stri
 /// all 65 536 are in flight `send_message` must fail cleanly instead of looping or reusing one.
 pub fn id_fill(target: usize, rec: &mut Recorder) -> (String, Vec<String>) {
     let mut fails = vec![];
-    let mut m = MuxRun::new(3_600_000, 100_000, false);
+    let mut m = MuxRun::new(3_600_000, 100_000, false, false);
     let mut ids: HashSet<u16> = HashSet::new();
     let mut keep = vec![];
     let mut attempts = 0usize;
